@@ -259,8 +259,10 @@ func VerifC04_Create() {
 	if dup {
 		e.putHTLC(id, types.Refunded, sh.transfer, sh.dir, amount, ts, 55, false)
 	}
+	// time locks across the valid range: both ends and their neighbours
+	timeLock := []uint64{types.MinTimeLock, types.MinTimeLock + 5, types.MaxTimeLock - 1, types.MaxTimeLock}[verifChoice("timeLock", 4)]
 	msg := &types.MsgCreateHTLC{Sender: sender.String(), To: to.String(), ReceiverOnOtherChain: "r", SenderOnOtherChain: "s",
-		Amount: amount, HashLock: hex.EncodeToString(lock), Timestamp: ts, TimeLock: types.MinTimeLock + 5, Transfer: sh.transfer}
+		Amount: amount, HashLock: hex.EncodeToString(lock), Timestamp: ts, TimeLock: timeLock, Transfer: sh.transfer}
 	verifAssume(msg.ValidateBasic() == nil)
 	esc0, w0, sup0 := e.bank.get(vModuleAddr(types.ModuleName), denom).BigInt(), e.bank.get(sender, denom).BigInt(), e.bank.supplyOf(denom).BigInt()
 	s0 := e.supply()
@@ -279,7 +281,7 @@ func VerifC04_Create() {
 	verifAssert(!dup, "a contract id is never reused")
 	h, found := e.k.GetHTLC(ctx, id)
 	verifAssert(found && h.State == types.Open && e.store().Has(types.GetHTLCExpiredQueueKey(h.ExpirationHeight, id)), "H1 new contract is open and queued at its expiry height")
-	verifAssert(h.ExpirationHeight == uint64(hHeight)+types.MinTimeLock+5, "expiry height = creation height + time lock")
+	verifAssert(h.ExpirationHeight == uint64(hHeight)+timeLock, "expiry height = creation height + time lock")
 	verifAssert(sup1.Cmp(sup0) == 0, "create mints/burns nothing")
 	switch {
 	case !sh.transfer, sh.dir == types.Outgoing:
